@@ -600,6 +600,25 @@ def _hi_is_last_item(sm, b, hi, s1, agg_bb):
     return True
 
 
+def _ends_at_position(sm, hi_o, pos_ruid):
+    """the upper bound of the text is the scanner position: a call of the position function itself, or of a scanning
+    helper that *returns* the position it stopped at (`let end = self.scan_while(pred)`, which ends in `self.current()`)"""
+    if hi_o is None or hi_o.kind != 'callres' or hi_o.proj or hi_o.data.ruid is None:
+        return False
+    if hi_o.data.ruid == pos_ruid:
+        return True
+    g = sm.prog.by_id.get(hi_o.data.ruid)
+    if g is None or g.locals[0]['ty'] != 'usize':
+        return False
+    ro = single_origin(trace_local(g, 0, (), through_calls=set()))
+    if ro is None or ro.kind != 'callres' or ro.proj or ro.data.ruid != pos_ruid:
+        return False
+    for c2 in g.live_calls:
+        if c2.term['arg_tys'] and c2.term['arg_tys'][0].startswith('&mut ') and sm.roles.is_scanner_ty(c2.term['arg_tys'][0]) and c2.bb in g.reachable_after(ro.data.bb):
+            return False
+    return True
+
+
 def _param_text_ok(sm, roles, b, pidx, s0, s1, agg_bb):
     """text parameter: at every call site (text, start) come from one call of a scanner H whose
     returned text is input[start .. current()], with no advance until the span end is read"""
@@ -647,7 +666,7 @@ def _param_text_ok(sm, roles, b, pidx, s0, s1, agg_bb):
             if {(o.kind, o.key()[1], o.proj) for o in given} != {(o.kind, o.key()[1], o.proj) for o in here}:
                 return 'at %s the start passed on is not the start the text was scanned from' % c.where()
             hi_o = single_origin(trace_operand(h, rb[1], through_calls=set()))
-            if hi_o is None or hi_o.kind != 'callres' or hi_o.data.ruid != o1.data.ruid:
+            if not _ends_at_position(sm, hi_o, o1.data.ruid):
                 return '%s: the text ends at a different position function than the span' % h.name
             for c2 in h.live_calls:
                 if c2.term['arg_tys'] and c2.term['arg_tys'][0].startswith('&mut ') and sm.roles.is_scanner_ty(c2.term['arg_tys'][0]) and c2.bb in h.reachable_after(hi_o.data.bb):
@@ -670,7 +689,7 @@ def _param_text_ok(sm, roles, b, pidx, s0, s1, agg_bb):
         if so != lo_o:
             return '%s: the start it returns is not the lower bound of the text it returns' % h.name
         hi_o = single_origin(trace_operand(h, rb[1], through_calls=set()))
-        if hi_o is None or hi_o.kind != 'callres' or hi_o.data.ruid != o1.data.ruid:
+        if not _ends_at_position(sm, hi_o, o1.data.ruid):
             return '%s: the text ends at a different position function than the span' % h.name
         # no advance in h after the slice's upper bound was read
         for c2 in h.live_calls:
